@@ -100,6 +100,17 @@ def check_C10(res, tier, seed, replay):
         allfiles = [(f, True) for f in files] + [(f, False) for f in files[::3]]
         nr = 400 if tier == 'quick' else 6000
         allfiles += [(random_file(rng, rng.choice([1, 2, 3, 5, 9, 10, 12, 25, 120]), rng.randint(0, 12)), False) for _ in range(nr)]
+        # many vertices: ids around 2^8 and 2^16 (an id or a counter narrower than the declared range wraps there)
+        for nv in (255, 256, 257, 65535, 65536, 65537, 70000):
+            ids = [x for x in (1, 2, 254, 255, 256, 257, 65534, 65535, 65536, 65537, nv - 1, nv, nv + 1) if x >= 1]
+            for rep in range(2):
+                lines_ = [{'k': 'p', 'n': nv, 'm': 0}]
+                for _ in range(6):
+                    a_, b_ = rng.choice(ids), rng.choice(ids)
+                    if rep == 0:
+                        a_, b_ = min(a_, nv), min(b_, nv)          # a valid file
+                    lines_.append({'k': 'e', 's': a_, 't': b_, 'w': rng.choice([OMITTED, 1000, 2500])})
+                allfiles.append(({'lines': lines_, 'nl': bool(rep)}, False))
         for f, plain in allfiles:
             path = os.path.join(fdir, 'f%d.dimacs' % nfile)
             nfile += 1
